@@ -44,6 +44,21 @@ def judge(rec, price, ops):
     return []
 
 
+def coq_queries(rec, price, ops):
+    out = []
+    for o in rec["ops"]:
+        I = o["I"]
+        if I in ("panic", "skipped", "timeout") or I.startswith("read="):
+            continue
+        d = lvl.kv(I.split(" || ")[0])
+        if "vec" in d and d.get("built", "ok") == "ok":
+            out.append((o["i"], "listing %s" % d["vec"], "after `%s`: the listing repeats an order or is not in timestamp order" % o["op"][:60]))
+            if o["op"].startswith(("REBUILD", "FORK", "EXT")):
+                out.append((o["i"], "agg %s %s %s %s" % (d["cv"], d["ch"], d["cc"], d["vec"]),
+                            "after `%s`: aggregates of the rebuilt level are not derived from its orders" % o["op"][:60]))
+    return out
+
+
 def corr_filter(text):
     return any(k in text for k in ("listing", "constructor", "permutation", " cv ", " ch ", " cc ", "panic", "model="))
 
@@ -71,4 +86,4 @@ def make_cases(rng, tier):
 
 def run(tier, seed, replay=None):
     return run_property("C10", tier, seed, replay, make_cases=make_cases, judge=judge, corr_filter=corr_filter,
-                        nontrivial=lambda rec, price, ops: any(o.startswith("ADD") for o in ops))
+                        nontrivial=lambda rec, price, ops: any(o.startswith("ADD") for o in ops), coq_queries=coq_queries)
